@@ -95,7 +95,7 @@ class CrateLock:
         self.fh.close()
 
 
-def run_group(crate, harnesses, flags, timeout_s, mem_gb, jobs, tag):
+def run_group(crate, harnesses, flags, timeout_s, mem_gb, jobs, tag, cbmc_args=None):
     """One cargo-kani invocation for a set of harnesses with the same global flags.
     Returns (json_result_or_None, log_path, wall_s, rc)."""
     cdir = prepare_crate(crate)
@@ -109,6 +109,8 @@ def run_group(crate, harnesses, flags, timeout_s, mem_gb, jobs, tag):
     cmd += ["-Z", "unstable-options", "-Z", "stubbing", "--harness-timeout", f"{int(timeout_s)}s",
             "--export-json", out_json, "--output-format", "terse", "-j", str(jobs)]
     cmd += list(flags)
+    if cbmc_args:
+        cmd += ["--cbmc-args"] + list(cbmc_args)  # must be last
     # hard wall cap for the whole group: build + ceil(n/jobs) waves of harnesses
     waves = (len(harnesses) + jobs - 1) // jobs
     hard = 1200 + waves * (timeout_s + 60)
@@ -130,6 +132,59 @@ def run_group(crate, harnesses, flags, timeout_s, mem_gb, jobs, tag):
         except Exception:
             res = None
     return res, log_path, wall, p.returncode
+
+
+def resolve_unwindset(crate, harnesses, spec):
+    """Per-loop unwinding bounds (CBMC --unwindset) for loops of the code under test whose
+    function name contains a given substring.  Loop ids are looked up in the goto binaries of
+    the current build (`goto-instrument --show-loops`), never hard-coded.  Unwinding assertions
+    stay on, so a too-small per-loop bound is reported as inconclusive, exactly like the global
+    one."""
+    cdir = prepare_crate(crate)
+    # A 2-second verification attempt of the first harness makes kani-driver produce the linked
+    # goto binary (<harness>.out) for the CURRENT source; its loop ids are the ones CBMC uses.
+    cmd = ["cargo", "kani", "--target-dir", os.path.join(TARGET, crate), "--exact", "-Z", "stubbing",
+           "-Z", "unstable-options", "--harness-timeout", "2s", "--output-format", "terse"]
+    for h in harnesses:
+        cmd += ["--harness", h]
+    with CrateLock(crate):
+        subprocess.run(cmd, cwd=cdir, env=env_for_kani(), stdout=subprocess.DEVNULL, stderr=subprocess.DEVNULL)
+    ids = {}
+    base = os.path.join(TARGET, crate)
+    metas = []
+    for root, _d, files in os.walk(base):
+        for f in files:
+            if f.endswith(".kani-metadata.json"):
+                metas.append(os.path.join(root, f))
+    metas.sort(key=os.path.getmtime, reverse=True)
+    for mf in metas[:1]:
+        try:
+            md = json.load(open(mf))
+        except Exception:
+            continue
+        for ph in md.get("proof_harnesses", []):
+            if ph.get("pretty_name") not in harnesses:
+                continue
+            gf = ph.get("goto_file")
+            if gf and gf.endswith(".symtab.out") and os.path.exists(gf[:-len(".symtab.out")] + ".out"):
+                gf = gf[:-len(".symtab.out")] + ".out"
+            if not gf or not os.path.exists(gf):
+                continue
+            out = subprocess.run(["goto-instrument", "--show-loops", gf], stdout=subprocess.PIPE,
+                                 stderr=subprocess.DEVNULL, text=True).stdout
+            cur = None
+            for line in out.splitlines():
+                m = re.match(r"Loop (\S+):", line)
+                if m:
+                    cur = m.group(1)
+                    continue
+                m = re.search(r"function (.+)$", line)
+                if m and cur:
+                    for key, n in spec.items():
+                        if key in m.group(1):
+                            ids[cur] = n
+                    cur = None
+    return ["--unwindset", ",".join(f"{k}:{v}" for k, v in sorted(ids.items()))] if ids else None
 
 
 def classify(res, harnesses, log_path):
@@ -287,7 +342,7 @@ def parse_terse_log(txt):
 PLAYBACK_RE = re.compile(r"```\s*\n(.*?)```", re.S)
 
 
-def extract_playback(crate, harness, flags, timeout_s, mem_gb):
+def extract_playback(crate, harness, flags, timeout_s, mem_gb, cbmc_args=None):
     """Re-run one failing harness alone with --concrete-playback=print, return the unit test text."""
     cdir = prepare_crate(crate)
     tag = "pb_" + harness.replace("::", "__")
@@ -295,6 +350,8 @@ def extract_playback(crate, harness, flags, timeout_s, mem_gb):
     cmd = ["cargo", "kani", "--target-dir", os.path.join(TARGET, crate), "--exact", "--harness", harness,
            "-Z", "stubbing", "-Z", "concrete-playback", "--concrete-playback=print",
            "--output-format", "terse"] + list(flags)
+    if cbmc_args:
+        cmd += ["-Z", "unstable-options", "--cbmc-args"] + list(cbmc_args)
     shell = f"ulimit -v {int(mem_gb * 1024 * 1024)}; exec timeout -k 20 {int(timeout_s + 600)} " + " ".join(
         "'" + c.replace("'", "'\\''") + "'" for c in cmd)
     with CrateLock(crate):
@@ -426,16 +483,17 @@ def check(pid, tier, only=None, jobs=None):
             if only and not any(o in h["name"] for o in only):
                 continue
             flags = tuple(h.get("flags", spec.get("flags", [])))
-            bygroup.setdefault(flags, []).append(h)
-        for flags, hs in bygroup.items():
-            groups.append((crate, flags, hs, spec))
+            uw = tuple(sorted((h.get("unwindset") or {}).items()))
+            bygroup.setdefault((flags, uw), []).append(h)
+        for (flags, uw), hs in bygroup.items():
+            groups.append((crate, flags, hs, spec, dict(uw)))
     if not groups:
         log(f"no harnesses registered for {pid} tier={tier}")
         return 2
     hmeta = {}
     gi = 0
     logs = []
-    for crate, flags, hs, spec in groups:
+    for crate, flags, hs, spec, uw in groups:
         gi += 1
         names = [h["name"] for h in hs]
         # deterministic permutation by seed (no randomness influences the verdict)
@@ -443,12 +501,19 @@ def check(pid, tier, only=None, jobs=None):
             names = names[seed % len(names):] + names[:seed % len(names)]
         for h in hs:
             hmeta[h["name"]] = dict(h, crate=crate, flags=list(flags))
+            if uw:
+                hmeta[h["name"]]["unwindset"] = uw
         tmo = max(h.get("timeout", spec.get("timeout", 600 if tier == "quick" else 1800)) for h in hs)
         mem = max(h.get("mem_gb", spec.get("mem_gb", 12 if tier == "quick" else 24)) for h in hs)
         j = min(jobs, len(names), max(1, int(56 // mem)))
         tag = f"{pid}_{tier}_{crate}_{gi}"
         log(f"[{pid}] crate={crate} harnesses={len(names)} jobs={j} timeout={tmo}s mem={mem}G flags={' '.join(flags) or '-'}")
-        res, log_path, wall, rc = run_group(crate, names, flags, tmo, mem, j, tag)
+        cbmc_args = resolve_unwindset(crate, names, uw) if uw else None
+        if uw:
+            log(f"[{pid}] per-loop unwinding: {cbmc_args}")
+        for n_ in names:
+            hmeta[n_]["cbmc_args"] = cbmc_args
+        res, log_path, wall, rc = run_group(crate, names, flags, tmo, mem, j, tag, cbmc_args)
         logs.append(log_path)
         info = classify(res, names, log_path)
         for h, i in info.items():
@@ -484,7 +549,8 @@ def check(pid, tier, only=None, jobs=None):
             extra_fails.append(h)
             continue
         hm = hmeta[h]
-        tests, pblog = extract_playback(hm["crate"], h, hm["flags"], hm.get("timeout", 600), hm.get("mem_gb", 16))
+        tests, pblog = extract_playback(hm["crate"], h, hm["flags"], hm.get("timeout", 600), hm.get("mem_gb", 16),
+                                        hm.get("cbmc_args"))
         rdir = os.path.join(VERIF, "replay", pid)
         os.makedirs(rdir, exist_ok=True)
         rpath = os.path.join(rdir, h.replace("::", "__") + ".rs")
